@@ -1,7 +1,7 @@
 #!/bin/bash
 # usage: seedconfirm.sh <ID> <variant> [patchfile]   — confirms a seeded change in a scratch worktree and stores it under /verif/seeded
 set -u
-ID="$1"; V="$2"; SRC=/tmp/seedout/$ID/$V; PATCH="${3:-$SRC/patch.diff}"
+ID="$1"; V="$2"; SRC=${SEEDROOT:-/tmp/seedout}/$ID/$V; PATCH="${3:-$SRC/patch.diff}"
 export PATH=/opt/veriftools/go1.26.8/bin:$PATH GOFLAGS= GOPROXY=off GOSUMDB=off GOTOOLCHAIN=local
 WT=/tmp/confirm_$ID$V; rm -rf $WT; git -C /repo worktree add -q --detach $WT HEAD || exit 3
 cd $WT
@@ -19,7 +19,7 @@ go test -vet=off -count=1 $PKG > /tmp/c4.$$ 2>&1 && R="$R existing-tests-pass" |
 echo "$ID/$V:$R"
 cd /; git -C /repo worktree remove --force $WT
 case "$R" in *UNMODIFIED*|*APPLY-FAILED*|*BUILD-FAILS*|*PASSES-WITH*|*TESTS-FAIL*) tail -5 /tmp/c1.$$ /tmp/c3.$$ /tmp/c4.$$; rm -f /tmp/c?.$$; exit 1;; esac
-D=/verif/seeded/$ID-$V; mkdir -p $D; cp "$PATCH" $D/patch.diff; cp $SRC/demo_test.go $D/demo_test.go
+D=/verif/seeded/$ID-${DESTV:-$V}; mkdir -p $D; cp "$PATCH" $D/patch.diff; cp $SRC/demo_test.go $D/demo_test.go
 python3 - "$SRC/meta.json" "$D/meta.json" "$R" "$DEST" <<'P'
 import json,sys
 m=json.load(open(sys.argv[1])); m['confirmed']=sys.argv[3].split(); m['demo_path']=sys.argv[4]
